@@ -217,9 +217,11 @@ Section Book10.
       destruct (m_script m) as [l|]; [|discriminate]. rewrite Eb in Et.
       destruct iscur eqn:Ec; cbn [andb] in Hd'.
       - destruct (is_nil o) eqn:En; cbn [negb snd] in Hd'; [discriminate|].
-        destruct (nth_error l (m_idx m)) as [dd|] eqn:Edd; [|discriminate]. inversion Hd' as [Hd'']. clear Hd'.
+        destruct (nth_error l (m_idx m)) as [dd|] eqn:Edd; [|discriminate].
+        change (x_ctx m [10; i] p) with (m_ctx m) in Hd'. destruct (nz (m_ctx m)) eqn:Enz; [|discriminate]. inversion Hd' as [Hd'']. clear Hd'.
+        assert (Hk : kctx s <> 0%nat).
+        { rewrite (R_ctx _ _ HR), nz_of_nat in Enz. apply negb_true_iff, Nat.eqb_neq in Enz. exact Enz. }
         destruct Et as [Et Er]. destruct (routine s) as [r'|] eqn:Ero'; [|discriminate]. apply Nat.eqb_eq in Ec. subst r'.
-        destruct (CK' r I Ero' Hc) as [Hk _].
         split; [now rewrite Ek|]. exists r, (length (timers (stop_timer s (rretry y)))), {| trec := r; tdead := (clock s + dd)%N; tst := TArmed |}.
         rewrite Ero. split; [reflexivity|]. rewrite Eg. cbn [rretry rec_upd]. split; [now rewrite Er|].
         rewrite Et, nth_error_app2, Nat.sub_diag by lia. cbn [nth_error tdead tst]. split; [reflexivity|].
@@ -233,6 +235,9 @@ Section Book10.
         destruct (T2' r t0 Ht') as (_ & _ & z & Hz & Hzr). destruct (T2' r0 t0 B) as (_ & _ & z' & Hz' & Hzr'). congruence.
     Qed.
 
+    Lemma bk_dead : dead s1 = dead s.
+    Proof. apply bookkeep_dead. Qed.
+
     Lemma bk_reported_R : R (x_state m [10; i] p) (hfin h s1 (hch h) ex).
     Proof.
       pose proof (quiet_settle s1) as Q.
@@ -240,7 +245,7 @@ Section Book10.
       destruct (bookkeep_aux s I) as (A1 & A2 & A3 & A4 & A5 & A6 & _).
       destruct bk_status as (S1 & S2 & S3). destruct (status_quiet _ _ Q) as (Q1 & Q2 & Q3).
       constructor; cbn [hs hch hlog hexitg hexit hfin m_sv m_ncb m_script m_idx m_ctx m_hasr m_sfn m_st m_clock m_ninst m_out m_chans
-                        m_succ m_err m_curexit m_pending m_quiet m_cur m_exitg m_pend m_wcanc x_state].
+                        m_succ m_err m_curexit m_pending m_quiet m_cur m_exitg m_pend m_wcanc m_dead x_state].
       - rewrite (q_sv _ _ Q), A1. apply (R_sv _ _ HR).
       - rewrite (q_ncb _ _ Q), A4. apply (R_ncb _ _ HR).
       - rewrite (q_ncb _ _ Q), A4. apply (R_ncb1 _ _ HR).
@@ -268,10 +273,10 @@ Section Book10.
         rewrite (q_ilen _ _ Q), bk_insts, length_set_nth in Hk. rewrite (getr_quiet _ _ _ Q).
         destruct (q_inst _ _ Q k x' Hx') as (x1 & Hx1 & _ & Ir). destruct (bk_inst_bwd k x1 Hx1) as (x0 & Hx0 & Ir0 & _).
         rewrite Ir, Ir0, (proj1 (bookkeep_keeps s I (irec x0))). apply (R_quiet _ _ HR Hq k x0 Hk Hx0).
-      - unfold x_cur. rewrite bk_spawned. change (x_epoch [10; i] p) with false. change (x_clear_ctx [10; i]) with false. cbn [orb].
+      - unfold x_cur. rewrite bk_spawned. change (x_epoch [10; i] p) with false. change (x_clear_ctx m [10; i]) with false. cbn [orb].
         intros r0 k Hr0 Hk0. rewrite (q_routine _ _ Q), Ero in Hr0. rewrite (getr_quiet _ _ _ Q), (proj1 (bookkeep_keeps s I r0)) in Hk0.
         apply (R_cur1 _ _ HR r0 k Hr0 Hk0).
-      - unfold x_cur. rewrite bk_spawned. change (x_epoch [10; i] p) with false. change (x_clear_ctx [10; i]) with false. cbn [orb].
+      - unfold x_cur. rewrite bk_spawned. change (x_epoch [10; i] p) with false. change (x_clear_ctx m [10; i]) with false. cbn [orb].
         intros c Hcur. destruct (R_cur2 _ _ HR c Hcur) as (x0 & Hx0 & Hr0). destruct (bk_inst_fwd c x0 Hx0) as (x1 & Hx1 & Ir1).
         destruct (quiet_inst_fwd _ _ c x1 Q Hx1) as (x' & Hx' & Ir' & _). exists x'. split; [exact Hx'|].
         rewrite (q_routine _ _ Q), Ero, Ir', Ir1. exact Hr0.
@@ -281,6 +286,7 @@ Section Book10.
         + exact (R_pend _ _ HR j a b Hin Hb).
       - change (x_wcanc m [10; i]) with (m_wcanc m). rewrite (map_wcanc_quiet _ _ Q), A6. apply (R_wcanc _ _ HR).
       - reflexivity.
+      - rewrite (q_dead _ _ Q), bk_dead. apply (R_dead _ _ HR).
     Qed.
 
     Lemma bk_reported_ok : step_ok m h [10; i] s1 (hch h) [] ex.
